@@ -44,6 +44,9 @@ fn verif_seed() -> u64 {
 pub enum Art {
     Trace(Trace),
     Case(Case),
+    /// a process history: the cases are served one after the other by one fresh process; the
+    /// last one is judged (the earlier ones are what the process went through before)
+    Session(Vec<Case>),
 }
 
 impl Art {
@@ -59,12 +62,19 @@ impl Art {
                 "case": c.to_json(),
                 "violation": {"property": v.property, "invariant": v.invariant, "slot": v.slot, "detail": v.detail},
             }),
+            Art::Session(cs) => json!({
+                "engine": "A", "config": "fault-session", "property": v.property, "machine": cs.last().map(|c| c.entry.name()).unwrap_or(""),
+                "cases": cs.iter().map(|c| c.to_json()).collect::<Vec<_>>(),
+                "note": "the cases are served in this order by one fresh process; the last one is judged",
+                "violation": {"property": v.property, "invariant": v.invariant, "slot": v.slot, "detail": v.detail},
+            }),
         }
     }
     fn label(&self) -> String {
         match self {
             Art::Trace(t) => format!("{}-{}", t.machine, t.run_index),
             Art::Case(c) => c.entry.name().to_string(),
+            Art::Session(cs) => format!("session-{}", cs.last().map(|c| c.entry.name()).unwrap_or("")),
         }
     }
 }
@@ -165,6 +175,9 @@ pub fn exec_trace(tr: &Trace, stats: &mut Stats) -> (Vec<Violation>, Reach, Vec<
                 // every 256th run: foreign requests are served first on this thread
                 if tr.run_index % 256 == 0 && std::env::var("SIM_NO_PRELUDE").is_err() {
                     prelude();
+                    // ... and a neighbour tenant keeps working on this thread between the run's
+                    // own deliveries
+                    machines::NEIGHBOUR.with(|n| n.set(true));
                 }
                 let mut st = Stats::default();
                 let r = exec_trace_here(tr, &mut st);
@@ -271,7 +284,22 @@ fn exec_art(a: &Art, stats: &mut Stats) -> Vec<Violation> {
             v
         }
         Art::Case(c) => cases::judge(c, &cases::run_case(c)),
+        Art::Session(cs) => exec_session(cs),
     }
+}
+
+/// Serves the cases in order (in this process, on this thread) and judges the last one. A
+/// violation is re-keyed so that it cannot be confused with the same case failing on its own.
+fn exec_session(cs: &[Case]) -> Vec<Violation> {
+    let Some((last, before)) = cs.split_last() else { return vec![] };
+    for c in before {
+        let _ = cases::run_case(c);
+    }
+    let mut v = cases::judge(last, &cases::run_case(last));
+    for x in v.iter_mut() {
+        x.invariant = format!("after-earlier-requests-in-the-same-process/{}", x.invariant);
+    }
+    v
 }
 
 fn gen_free<M: Machine>(property: &str, seed: u64, run: u64, size: SizeClass) -> Trace {
@@ -421,6 +449,9 @@ struct Ctx {
 
 /// Minimise, persist, replay in a fresh process; prints VIOLATION or KNOWN-FINDING. Returns
 /// true if the violation is a new one (not listed as an open known finding).
+/// set when a violation was seen whose replay file does not reproduce it in a fresh process
+static UNREPLAYABLE: std::sync::atomic::AtomicBool = std::sync::atomic::AtomicBool::new(false);
+
 fn report(ctx: &Ctx, art: &Art, v: &Violation) -> bool {
     let known = load_known();
     if let Some((_, k, text)) = known.iter().find(|(p, k, _)| *p == v.property && *k == v.invariant) {
@@ -444,6 +475,7 @@ fn report(ctx: &Ctx, art: &Art, v: &Violation) -> bool {
             (Art::Trace(min), mv, budget.used, tr.events.len())
         }
         Art::Case(c) => (Art::Case(minimize_case(c, &key)), v.clone(), 0, 0),
+        Art::Session(cs) => (Art::Session(cs.clone()), v.clone(), 0, cs.len()),
     };
     // re-derive the violation text of the minimised artifact
     let min_v = {
@@ -464,8 +496,9 @@ fn report(ctx: &Ctx, art: &Art, v: &Violation) -> bool {
     let want = format!("REPRODUCED property={} invariant={}", min_v.property, min_v.invariant);
     if outp.status.code() != Some(1) || !so.contains(&want) {
         eprintln!("[sim] HARNESS ERROR: fresh-process replay of {} did not reproduce ({:?}): {}", path.display(), outp.status.code(), so);
-        println!("[sim] NONDETERMINISTIC-FAILURE: {} / {} was observed in this process but its replay file does not reproduce it in a fresh one. The execution was not a function of seed and trace: the library's answer depended on something the simulator does not own (e.g. process-global state raced by the worker threads of this process).", min_v.property, min_v.invariant);
-        std::process::exit(2);
+        println!("[sim] NONDETERMINISTIC-FAILURE: {} / {} was observed in this process but its replay file does not reproduce it in a fresh one. The execution was not a function of seed and trace: the library's answer depended on what this process had served before or was serving at the same time on other worker threads (process-global state inside the library). The process-history batch and Engine C own those two dimensions; without a replayable witness from them the run ends as a harness error.", min_v.property, min_v.invariant);
+        UNREPLAYABLE.store(true, std::sync::atomic::Ordering::SeqCst);
+        return false;
     }
     println!("[sim] {}: {}", min_v.invariant, min_v.detail);
     println!("VIOLATION property={} replay={}", min_v.property, path.display());
@@ -691,6 +724,39 @@ fn run_c05(ctx: &Ctx) -> i32 {
     }
 }
 
+/// leaders: per entry point, element type and fault kind one case (among them the NaN that makes
+/// the quantile front-ends panic while sorting, as documented, and the capacity overflow);
+/// followers: per entry point one fault-free case and one faulty one.
+fn session_plan(all: &[Case]) -> (Vec<Case>, Vec<Case>) {
+    // per key the longest stream (a fault on a stream too short to be looked at is rejected
+    // before anything interesting runs)
+    let mut leaders: BTreeMap<(String, u8, String, u64), Case> = BTreeMap::new();
+    let mut followers: BTreeMap<(String, bool, bool), Case> = BTreeMap::new();
+    let len = |c: &Case| c.a.len() + c.b.len();
+    for c in all {
+        if len(c) > 12 {
+            continue;
+        }
+        let fl = match c.flt { machines::Flt::F32 => 0u8, machines::Flt::F64 => 1, machines::Flt::Int => 2 };
+        let kind = c.fault.split('(').next().unwrap_or("").to_string();
+        // the query parameter (quantile / rate) is a dimension of its own: with an invalid one the
+        // data is never looked at
+        let q = f64::from_bits(c.q);
+        let q_ok = q > 0.0 && q < 1.0;
+        if c.fault != "none" {
+            let e = leaders.entry((c.entry.name().to_string(), fl, kind, c.q)).or_insert_with(|| c.clone());
+            if len(c) > len(e) {
+                *e = c.clone();
+            }
+        }
+        let e = followers.entry((c.entry.name().to_string(), c.fault == "none", q_ok)).or_insert_with(|| c.clone());
+        if len(c) > len(e) {
+            *e = c.clone();
+        }
+    }
+    (leaders.into_values().collect(), followers.into_values().collect())
+}
+
 fn run_c11(ctx: &Ctx) -> i32 {
     let thorough = ctx.tier == "thorough";
     // (1) exhaustive fault cases against every entry point
@@ -730,8 +796,48 @@ fn run_c11(ctx: &Ctx) -> i32 {
         let tr: Trace = dispatch_machine!(m, gen_fault_long, "C11", seed, j / nm);
         trace_job(tr, (j % nm) as u32, stats, j == 0)
     });
-    let new = report_all(ctx, &[&b1, &b2, &b3]);
-    write_partial(ctx, "fault_enumeration", &[&b1, &b2, &b3], new, rule, &assumptions, json!({"enumerated_cases": n_cases}), Some("entry point x fault kind x position x confidence kind for streams of length <= 6: exhaustive"));
+    // (4) process histories: a fresh process serves one request that ends in a documented panic
+    // (caught by its caller) or in an error, and then ordinary requests. What the library keeps
+    // between calls must survive an unwinding / failing call: every later request is judged as if
+    // it were the first.
+    let (leaders, followers) = session_plan(&cases_v);
+    let n_leaders = leaders.len() as u64;
+    let (lref, fref) = (&leaders, &followers);
+    let b4: Batch<Art> = runner::run_batch("process histories (a fresh process serves a request ending in a documented panic or an error, then ordinary requests)", n_leaders, false, move |j, stats| {
+        let leader = &lref[j as usize];
+        stats.inc("sessions");
+        let scan_with = |with_leader: bool, fs: &[Case]| -> Option<(usize, Violation)> {
+            let file = std::env::temp_dir().join(format!("sim_session_{}_{}.json", std::process::id(), j));
+            std::fs::write(&file, json!({"leader": if with_leader { leader.to_json() } else { Value::Null }, "followers": fs.iter().map(|c| c.to_json()).collect::<Vec<_>>()}).to_string()).expect("write session file");
+            let outp = std::process::Command::new(std::env::current_exe().expect("current_exe")).arg("session-scan").arg(&file).output().expect("spawn session child");
+            std::fs::remove_file(&file).ok();
+            let so = String::from_utf8_lossy(&outp.stdout).to_string();
+            let line = so.lines().find(|l| l.starts_with("SESSION-VIOLATION "))?;
+            let x: Value = serde_json::from_str(&line["SESSION-VIOLATION ".len()..]).ok()?;
+            let inv = format!("after-earlier-requests-in-the-same-process/{}", x["invariant"].as_str().unwrap_or(""));
+            Some((x["follower"].as_u64().unwrap_or(0) as usize, Violation::new(x["property"].as_str().unwrap_or("C11"), &inv, x["slot"].as_u64().unwrap_or(0) as u16, x["detail"].as_str().unwrap_or("").to_string())))
+        };
+        let mut violations = Vec::new();
+        let mut artifact = None;
+        let scan = |fs: &[Case]| scan_with(true, fs);
+        if let Some((i, v)) = scan(fref) {
+            // the follower must be innocent on its own - in a fresh process too, this one has served
+            // hundreds of thousands of requests - otherwise the case batch reports it
+            let pair = std::slice::from_ref(&fref[i]);
+            if scan_with(false, pair).is_none() {
+                // the pair (leader, follower) if it is enough, the whole served prefix otherwise
+                let cs: Vec<Case> = if scan(pair).is_some() { vec![leader.clone(), fref[i].clone()] } else { std::iter::once(leader.clone()).chain(fref[..=i].iter().cloned()).collect() };
+                artifact = Some(Art::Session(cs));
+                violations.push(v);
+            }
+        }
+        let mut reach = Reach::default();
+        reach.shape = cases::case_shape(leader) ^ 0x5E55_10;
+        reach.steps = 1 + fref.len() as u64;
+        JobOut { artifact, violations, reach, nontrivial: true, fired: vec![(format!("session-leader:{}", leader.fault.split('(').next().unwrap_or("")), 1u64)], sample: if j == 0 { Some(json!({"session_leader": leader.to_json(), "followers": fref.len()})) } else { None }, label: (0, format!("session-{}", leader.entry.name())) }
+    });
+    let new = report_all(ctx, &[&b1, &b2, &b3, &b4]);
+    write_partial(ctx, "fault_enumeration", &[&b1, &b2, &b3, &b4], new, rule, &assumptions, json!({"enumerated_cases": n_cases, "process_histories": n_leaders, "followers_per_history": followers.len()}), Some("entry point x fault kind x position x confidence kind for streams of length <= 6: exhaustive"));
     if new > 0 {
         1
     } else {
@@ -784,6 +890,8 @@ fn main() {
                     2
                 }
             };
+            // a sighting without a replayable witness is not a result
+            let code = if code == 0 && UNREPLAYABLE.load(std::sync::atomic::Ordering::SeqCst) { 2 } else { code };
             std::process::exit(code);
         }
         "replay" => {
@@ -812,6 +920,19 @@ fn main() {
                 };
                 let rec = v.get("violation").map(|x| (x["property"].as_str().unwrap_or("").to_string(), x["invariant"].as_str().unwrap_or("").to_string()));
                 (Art::Case(c), rec)
+            } else if v.get("config").and_then(|x| x.as_str()) == Some("fault-session") {
+                let mut cs = Vec::new();
+                for cj in v["cases"].as_array().cloned().unwrap_or_default() {
+                    match Case::from_json(&cj) {
+                        Ok(c) => cs.push(c),
+                        Err(e) => {
+                            eprintln!("bad replay file: {e}");
+                            std::process::exit(2);
+                        }
+                    }
+                }
+                let rec = v.get("violation").map(|x| (x["property"].as_str().unwrap_or("").to_string(), x["invariant"].as_str().unwrap_or("").to_string()));
+                (Art::Session(cs), rec)
             } else {
                 match Trace::from_json(&v) {
                     Ok(t) => {
@@ -848,6 +969,24 @@ fn main() {
                     std::process::exit(0);
                 }
             }
+        }
+        "session-scan" => {
+            // child of the session batch: serve the leader, then the followers one after the other in
+            // this (fresh) process; report the first follower that is judged in violation
+            let v: Value = serde_json::from_str(&std::fs::read_to_string(&args[2]).expect("read session file")).expect("json");
+            if !v["leader"].is_null() {
+                let leader = Case::from_json(&v["leader"]).expect("leader");
+                let _ = cases::run_case(&leader);
+            }
+            for (i, cj) in v["followers"].as_array().cloned().unwrap_or_default().iter().enumerate() {
+                let f = Case::from_json(cj).expect("follower");
+                let viol = cases::judge(&f, &cases::run_case(&f));
+                if let Some(x) = viol.first() {
+                    println!("SESSION-VIOLATION {}", json!({"follower": i, "property": x.property, "invariant": x.invariant, "slot": x.slot, "detail": x.detail}));
+                    break;
+                }
+            }
+            std::process::exit(0);
         }
         "obs" => {
             // prints what every live slot of an isolated trace answers at the end (fresh process)
